@@ -70,15 +70,16 @@ def settleA (as : List (LHS × Expr)) (r : Rd) : Rd := Net.iter (passA as) as.le
 
 def applyNbaA (r : Rd) (q : List (Tgt × BV)) : Rd := q.foldl (fun r tv => wrA r tv.1 tv.2) r
 
-/-- run every `always @(posedge …)` block (all follow the base clock) on the current store, collecting the
+/-- run one `always @(posedge …)` block (all follow the base clock) on the current store, collecting its
     non-blocking updates; blocking assignments update the store at once (`V.runProc`) -/
-def fireAll (procs : List (Event × Stmt)) (r : Rd) : Rd × List (Tgt × BV) :=
-  procs.foldl (fun acc ep =>
-    match ep.1 with
-    | .pos _ =>
-        let x := exec (σ := Rd) id wrA none ep.2 { st := acc.1, nba := [] }
-        (x.st, acc.2 ++ x.nba)
-    | _ => acc) (r, [])
+def fireStep (acc : Rd × List (Tgt × BV)) (ep : Event × Stmt) : Rd × List (Tgt × BV) :=
+  match ep.1 with
+  | .pos _ =>
+      let x := exec (σ := Rd) id wrA none ep.2 { st := acc.1, nba := [] }
+      (x.st, acc.2 ++ x.nba)
+  | _ => acc
+
+def fireAll (procs : List (Event × Stmt)) (r : Rd) : Rd × List (Tgt × BV) := procs.foldl fireStep (r, [])
 
 /-- one clock cycle (see the header) -/
 def cycleA (f : V.Flat) (r : Rd) : Rd :=
